@@ -2,6 +2,7 @@ package kvql
 
 import (
 	"fmt"
+	"strconv"
 	"strings"
 )
 
@@ -544,8 +545,12 @@ func (a *AggregatePlan) convertToBytes(val any) ([]byte, error) {
 		return []byte(value), nil
 	case int, int8, int16, int32, int64, uint, uint8, uint16, uint32, uint64:
 		return []byte(fmt.Sprintf("%d", value)), nil
-	case float32, float64:
-		return []byte(fmt.Sprintf("%f", value)), nil
+	case float32:
+		return strconv.AppendFloat(nil, float64(value), 'f', -1, 32), nil
+	case float64:
+		// The exact decimal form: values that differ beyond the sixth
+		// decimal are different groups
+		return strconv.AppendFloat(nil, value, 'f', -1, 64), nil
 	default:
 		if val == nil {
 			return nil, nil
